@@ -88,9 +88,22 @@ by the negative `r = j − (n+1)(n+2)/2 − 1`, sign from the parity of j) retur
 the row n, which the code finds by a float `sqrt`/`ceil`; the real function is compared for every j ≤ 861 by the correspondence) -/
 theorem code_index_matches (j : Nat) (h1 : 1 ≤ j) : codeIndex j = (nollM j, nollN j) := codeIndex_eq j h1
 
-/-- the row search of `zernike_index`, `n = ⌈(−1 + √(1 + 8j))/2⌉ − 1`, evaluated in exact real arithmetic, is the Noll row -/
+/-- **tie to the source of `zernike_index` and `zernike_coordinates`**: the pieces `codeIndex` and `zShift` are built from are re-translated
+on every run — `k = (n+1)(n+2)/2`, `r = j − k − 1`, the sign rule, the row seeds `[1, 1]` / `[0]`, ⌊n/2⌋ passes appending `last + 2` twice,
+the centre index `shape // 2` and the default shift `centroid − centre` -/
+theorem index_and_origin_tie (j n a : Nat) (c : ℚ) (N : Int) :
+    (Gen.rowStep a = [a + 2, a + 2] ∧ Gen.rowSeed n = (if n % 2 = 1 then [1, 1] else [0]) ∧ Gen.rowLoops n = n / 2 ∧
+      Gen.idxR j n = (j : Int) - ((n + 1) * (n + 2) / 2 : Nat) - 1 ∧ Gen.idxSign j = (if j % 2 = 1 then -1 else 1)) ∧
+    Gen.zCenter N = N / 2 ∧ Gen.zShiftAxis c N = c - ((N / 2 : Int) : ℚ) :=
+  ⟨gen_index_forms j n a, rfl, rfl⟩
+
+/-- the row search of `zernike_index`, `n = int(np.ceil(<Gen.rowSearchArg>) − 1)` with the REGENERATED argument `(−1 + √(1 + 8j))/2`, evaluated
+in exact real arithmetic, is the Noll row -/
 theorem row_search_real (j : ℕ) (hj : 1 ≤ j) :
-    ⌈(-1 + Real.sqrt (1 + 8 * (j : ℝ))) / 2⌉ - 1 = (nollN j : ℤ) := by
+    ⌈Gen.rowSearchArg Real.sqrt (j : ℝ)⌉ - 1 = (nollN j : ℤ) := by
+  have hform : Gen.rowSearchArg Real.sqrt (j : ℝ) = (-1 + Real.sqrt (1 + 8 * (j : ℝ))) / 2 := by
+    unfold Gen.rowSearchArg; push_cast; ring_nf
+  rw [hform]
   obtain ⟨hp, e⟩ := nollRow_spec j hj
   unfold nollN
   generalize (nollRow j).1 = n at *
@@ -338,9 +351,9 @@ theorem coords_origin_is_centroid {K : Type} [Field K] (mask : Arr Bool) (hc : (
       (if mask.get i j then zCC mask (zShift (K := K) mask) j else 0)) = 0 := by
   obtain ⟨m0, m1, m2⟩ := maskMoments_cast (K := K) mask
   have hr : ∀ i : Int, zRR mask (zShift (K := K) mask) i = (i : K) - ((maskMoments mask).2.1 : K) / ((maskMoments mask).1 : K) := by
-    intro i; unfold zRR zShift meshCoord Gen.meshCoord; simp only; ring
+    intro i; unfold zRR zShift meshCoord Gen.meshCoord Gen.zShiftAxis Gen.zCenter; simp only; ring
   have hcc : ∀ j : Int, zCC mask (zShift (K := K) mask) j = (j : K) - ((maskMoments mask).2.2 : K) / ((maskMoments mask).1 : K) := by
-    intro j; unfold zCC zShift meshCoord Gen.meshCoord; simp only; ring
+    intro j; unfold zCC zShift meshCoord Gen.meshCoord Gen.zShiftAxis Gen.zCenter; simp only; ring
   refine ⟨hr, hcc, ?_, ?_⟩
   · have e : ∀ i ∈ range mask.s0.toNat, ∀ j ∈ range mask.s1.toNat,
         (if mask.get i j then zRR mask (zShift (K := K) mask) i else 0)
